@@ -40,7 +40,13 @@ type valGen struct {
 	cfg         ValCfg
 	budget      int
 	inlineIface bool // the next interface value drawn is an inlined field
+	omitIface   bool // the next interface value drawn is an omitempty field
 }
+
+// what an omitempty interface field holds: every flavour of "empty or not" —
+// nil, empty and non-empty strings/slices/maps, IsZeroer structs (value and
+// pointer receiver) that are zero or not, plain structs, pointers to those
+var dynEmptyKinds = []string{"nil", "string", "slice_int", "map_string", "struct", "ptr_struct", "int", "pool:ZeroVal", "pool:ZeroVal", "pool:ZeroPtr", "pool:FolderObj", "ptr_int"}
 
 // DrawValue draws a value for the type.
 func DrawValue(t *rapid.T, typ reflect.Type, cfg ValCfg) GoVal {
@@ -81,10 +87,10 @@ var dynKinds = []string{"nil", "bool", "string", "int", "int8", "int64", "uint8"
 // dynamic pool types (fold side): implemented folders — incl. named containers
 // of builtin elements, which the library also knows a conversion fast path for —
 // the registered folder and plain named containers
-var dynPool = []string{"FolderObj", "FolderPtr", "FolderScalar", "RegT", "FTags", "FCounts", "FAnyMap", "FAnyList", "NMapInt", "NMapAny", "NSliceStr", "NSliceAny", "NBytes", "ZeroVal", "NArr3", "NArrStr", "NSliceN", "NMapN", "NUint64", "NInt16", "FLevel", "FFlag", "RDur"}
+var dynPool = []string{"FolderObj", "FolderPtr", "FolderScalar", "RegT", "FTags", "FCounts", "FAnyMap", "FAnyList", "NMapInt", "NMapAny", "NSliceStr", "NSliceAny", "NBytes", "ZeroVal", "NArr3", "NArrStr", "NSliceN", "NMapN", "NUint64", "NInt16", "FLevel", "FFlag", "RDur", "FDeleg"}
 
 // dynamic types that fold to an object (what an inlined interface must hold)
-var dynObjKinds = []string{"map_iface", "map_string", "struct", "map_scalar", "gen_struct", "gen_struct", "pool:FolderObj", "pool:FCounts", "pool:NMapAny", "ptr_struct"}
+var dynObjKinds = []string{"map_iface", "map_string", "struct", "map_scalar", "gen_struct", "gen_struct", "pool:FolderObj", "pool:FCounts", "pool:NMapAny", "ptr_struct", "pool:FDeleg", "pool:FDeleg"}
 
 func (g *valGen) dynType(t *rapid.T, depth int) *TypeDesc {
 	k := rapid.SampledFrom(dynKinds).Draw(t, "dyn")
@@ -208,6 +214,14 @@ func (g *valGen) val(t *rapid.T, typ reflect.Type, depth int) GoVal {
 		if g.inlineIface {
 			g.inlineIface = false
 			dt = g.dynObjType(t, depth)
+		} else if g.omitIface {
+			g.omitIface = false
+			k := rapid.SampledFrom(dynEmptyKinds).Draw(t, "dyne")
+			if k == "pool:ZeroPtr" || (k == "pool:ZeroVal" && rapid.Bool().Draw(t, "dynep")) {
+				dt = &TypeDesc{Kind: "ptr", Elem: &TypeDesc{Kind: "pool", Pool: k[5:]}}
+			} else {
+				dt = g.dynTypeOf(t, k, depth)
+			}
 		} else {
 			dt = g.dynType(t, depth)
 		}
@@ -274,12 +288,14 @@ func (g *valGen) val(t *rapid.T, typ reflect.Type, depth int) GoVal {
 			}
 			// an inlined interface must hold something that folds to an object:
 			// make that the common case (anything else is a refusal)
-			g.inlineIface = false
+			g.inlineIface, g.omitIface = false, false
 			if f := typ.Field(i); f.Type.Kind() == reflect.Interface && ParseTag(f.Tag.Get("struct")).Inline {
 				g.inlineIface = rapid.IntRange(0, 4).Draw(t, "inlobj") > 0
+			} else if f.Type.Kind() == reflect.Interface && ParseTag(f.Tag.Get("struct")).OmitEmpty {
+				g.omitIface = rapid.IntRange(0, 2).Draw(t, "omitdyn") > 0
 			}
 			out.Elems = append(out.Elems, g.val(t, typ.Field(i).Type, depth+1))
-			g.inlineIface = false
+			g.inlineIface, g.omitIface = false, false
 		}
 		return out
 	}
